@@ -242,6 +242,16 @@ class SetInterp(object):
                     return SV(v.m)          # a *copy*
                 return v
             if isinstance(f, ast.Attribute):
+                if norm(f) in ('set.union', 'frozenset.union') and e.args and not any(isinstance(a, ast.Starred) for a in e.args):
+                    m = 0                   # set.union(a, b, c): the unbound method, first argument is the receiver
+                    for a in e.args:
+                        m |= self._mask(a)
+                    return SV(m)
+                if norm(f) in ('set.intersection', 'frozenset.intersection') and e.args and not any(isinstance(a, ast.Starred) for a in e.args):
+                    m = self.u.full
+                    for a in e.args:
+                        m &= self._mask(a)
+                    return SV(m)
                 if norm(f) == 'set.union' and len(e.args) == 1 and isinstance(e.args[0], ast.Starred):
                     v = self._ev(e.args[0].value)
                     if isinstance(v, list):
